@@ -5,6 +5,7 @@ import (
 	"context"
 	"encoding/json"
 	"fmt"
+	"io"
 	"os"
 	"os/exec"
 	"path/filepath"
@@ -52,8 +53,27 @@ func runCLI(cs c16Case) cliResult {
 	args = append(args, cs.Args...)
 	docFile := filepath.Join(j.Root, "doc.md")
 	os.WriteFile(docFile, []byte(cs.Doc), 0o644)
-	var stdin *bytes.Reader = bytes.NewReader(nil)
+	var stdin io.Reader = bytes.NewReader(nil)
 	switch cs.Input {
+	case "devnull":
+		// what cron, CI runners and "</dev/null" give a process: a character device that is at end of input
+		if f, err := os.Open("/dev/null"); err == nil {
+			defer f.Close()
+			stdin = f
+		}
+	case "nostdin":
+		stdin = nil // os/exec connects the child's standard input to the null device
+	case "slow-stdin":
+		// a producer that pauses in the middle of the document for 1.2 s
+		pr, pw := io.Pipe()
+		stdin = pr
+		go func() {
+			h := len(cs.Doc) / 2
+			pw.Write([]byte(cs.Doc[:h]))
+			time.Sleep(1200 * time.Millisecond)
+			pw.Write([]byte(cs.Doc[h:]))
+			pw.Close()
+		}()
 	case "stdin":
 		stdin = bytes.NewReader([]byte(cs.Doc))
 	case "dash":
@@ -111,7 +131,9 @@ func runCLI(cs c16Case) cliResult {
 		cmd = exec.Command(cliBin(), args...)
 	}
 	cmd.Dir = j.Target
-	cmd.Stdin = stdin
+	if stdin != nil {
+		cmd.Stdin = stdin
+	}
 	cmd.Stderr = &se
 	cmd.Env = append(os.Environ(), "NO_COLOR=1", "TERM=dumb")
 	switch cs.Stdout {
@@ -162,7 +184,15 @@ func runLib(cs c16Case) (out string, err error, snap fsx.Snap, usage bool) {
 	massive := false
 	dry := false
 	strict := false
+	timeout := false
 	var exts []string
+	defer func() {
+		// a timeout of 200 ms and a producer that pauses for 1.2 s: the call made with that deadline ends with the
+		// context's error (C11), whatever else is on the command line
+		if timeout && cs.Input == "slow-stdin" && !usage && err == nil {
+			err = context.DeadlineExceeded
+		}
+	}()
 	for i := 0; i < len(cs.Args); i++ {
 		switch cs.Args[i] {
 		case "--format":
@@ -182,6 +212,7 @@ func runLib(cs c16Case) (out string, err error, snap fsx.Snap, usage bool) {
 		case "--massive-timeout", "--mt":
 			i++
 			massive = true
+			timeout = cs.Args[i] == "200ms"
 			if strings.HasPrefix(cs.Args[i], "-") || cs.Args[i] == "0" || cs.Args[i] == "0s" {
 				return "", nil, fsx.Snapshot(j.Target), true
 			}
@@ -256,6 +287,9 @@ func sortedLines(s string) string {
 }
 
 func c16Judge(c *rep.Ctx, cs c16Case) {
+	if cs.Input == "devnull" || cs.Input == "nostdin" {
+		cs.Doc, cs.DocName = "", "(no input: the null device)"
+	}
 	cli := runCLI(cs)
 	lout, lerr, lsnap, usage := runLib(cs)
 	c.Eval()
@@ -461,6 +495,22 @@ func init() {
 				add(c16Case{Cmd: "verify", Doc: d.doc, DocName: d.name, Args: args, Input: "stdin", Extra: "stray", Stdout: "pipe", Target: "dir"})
 				add(c16Case{Cmd: "verify", Doc: d.doc, DocName: d.name, Args: args, Input: "stdin", Extra: "empty-first", Stdout: "pipe", Target: "dir", Pre: map[string]byte{"a/b": 'd', "a/c.go": 'f', "a/extra": 'd'}})
 				add(c16Case{Cmd: "verify", Doc: d.doc, DocName: d.name, Args: args, Input: "fifo", Stdout: "pipe", Target: "dir", Pre: map[string]byte{"a/b": 'd', "a/c.go": 'f'}})
+			}
+		}
+		// standard input is the null device (cron, CI, "</dev/null", a parent that passes no stdin): an empty document
+		for _, in := range []string{"devnull", "nostdin"} {
+			for _, args := range [][]string{nil, {"--format", "json"}, {"--massive"}, {"-f", "-"}} {
+				add(c16Case{Cmd: "output", Args: args, Input: in, Stdout: "pipe"})
+			}
+			add(c16Case{Cmd: "mkdir", Input: in, Stdout: "pipe", Target: "dir"})
+			add(c16Case{Cmd: "mkdir", Args: []string{"--dry-run"}, Input: in, Stdout: "pipe", Target: "dir", Pre: map[string]byte{"a": 'd'}})
+			add(c16Case{Cmd: "verify", Args: []string{"--strict"}, Input: in, Stdout: "pipe", Target: "dir", Pre: map[string]byte{"a": 'd'}})
+		}
+		// a producer that pauses longer than the massive timeout: the deadline counts however the massive flags are
+		// combined and ordered; without a timeout the pause is just waited for
+		for _, d := range docs[:2] {
+			for _, args := range [][]string{{"--massive", "--massive-timeout", "200ms"}, {"--massive-timeout", "200ms", "--massive"}, {"-m", "--mt", "200ms"}, {"--mt", "200ms"}, {"--massive"}, nil, {"--mt", "30s", "-m"}} {
+				add(c16Case{Cmd: "output", Doc: d.doc, DocName: d.name, Args: args, Input: "slow-stdin", Stdout: "pipe"})
 			}
 		}
 		// aliases of subcommands and flags, the massive timeout flag, the description template
